@@ -289,7 +289,7 @@ func c05Prop(st *CaseStats, fam int) func(t *rapid.T) {
 		last := int64(-1)
 		lastTarget := uint64(0)
 		hist := ""
-		skipped, exclBetween, afterEnd, acrossChunk, withinChunk := false, false, false, false, false
+		skipped, exclBetween, afterEnd, acrossChunk, withinChunk, beyond32 := false, false, false, false, false, false
 		maxDoc := uint64(c.Exp.N) + 5
 		for s := 0; s < nSteps; s++ {
 			var got segment.Posting
@@ -309,7 +309,14 @@ func c05Prop(st *CaseStats, fam int) func(t *rapid.T) {
 					lo = lastTarget
 				}
 				var d uint64
-				switch rapid.IntRange(0, 10).Draw(t, "advKind") {
+				switch rapid.IntRange(0, 11).Draw(t, "advKind") {
+				case 11: // beyond the 32-bit document number space: nothing can be at or after such a target
+					d = rapid.SampledFrom([]uint64{1 << 32, 1<<32 + 1, 1 << 33, 5 << 32, 1 << 63, math.MaxUint64, math.MaxUint32}).Draw(t, "beyond32")
+					if idx < len(live) && rapid.Bool().Draw(t, "beyond32low") {
+						// the low 32 bits name a posting that is still ahead
+						d = uint64(rapid.IntRange(1, 3).Draw(t, "beyond32k"))<<32 + live[rapid.IntRange(idx, len(live)-1).Draw(t, "beyond32hit")].Doc
+					}
+					beyond32 = true
 				case 10: // around the next 65536 boundary (next roaring container)
 					d = ((lo>>16)+1)<<16 - 1 + uint64(rapid.IntRange(0, 2).Draw(t, "containerJitter"))
 				case 0:
@@ -339,9 +346,6 @@ func c05Prop(st *CaseStats, fam int) func(t *rapid.T) {
 				}
 				if d < lo {
 					d = lo
-				}
-				if d > math.MaxUint32-1 {
-					d = math.MaxUint32 - 1
 				}
 				lastTarget = d
 				hist += fmt.Sprintf(" Adv(%d)", d)
@@ -442,6 +446,9 @@ func c05Prop(st *CaseStats, fam int) func(t *rapid.T) {
 		}
 		if afterEnd {
 			labels = append(labels, "after-end")
+		}
+		if beyond32 {
+			labels = append(labels, "advance-target>=2^32")
 		}
 		if except != nil && !except.IsEmpty() || replaced {
 			labels = append(labels, "exclusion-path")
